@@ -318,7 +318,7 @@ def _dispatcher(run, ev):
         pos_t, leaf_t, data_t = ("item", el, 0), ("item", el, 2), ("item", el, 3)
         live_any = ("op", "or", tuple(("sub", ("sub", data_t, num(i)), num(0)) for i in range(4)))
         is_live = ("ite", leaf_t, sym.TRUE, live_any)
-        want_level = ("op", "cmp:Eq", (("attr", pos_t, "n"), _spec(ev, "s.depth - 1", s=("sym", "self"))))
+        want_level = sym.cmp("Eq", ("attr", pos_t, "n"), _spec(ev, "s.depth - 1", s=("sym", "self")))
         if len(seed_puts) != 1:
             run.violated("C01.R3", f, (seed_puts[0].node if seed_puts else lnode), "%d seeding puts on the ready queue before the workers start "
                          "(expected exactly one, in the preparation loop)" % len(seed_puts), kind="seed-sites")
@@ -395,8 +395,8 @@ def _dispatcher(run, ev):
     # ---- R4 termination
     cfg = CFG(f.node)
     breaks = [e for e in r.events if e.kind == "break" and ("loop", get_loop) in e.pc]
-    want_term = ("op", "cmp:Eq", (got, ("attr", ("sym", "self"), "_apex")))
-    want_term2 = ("op", "cmp:Eq", (("attr", ("sym", "self"), "_apex"), got))
+    want_term = sym.cmp("Eq", got, ("attr", ("sym", "self"), "_apex"))
+    want_term2 = want_term
     bad = False
     if not breaks:
         run.violated("C01.R4", f, None, "the dispatch loop has no exit: walk never returns", kind="no-exit")
@@ -434,7 +434,7 @@ def _dispatcher(run, ev):
     for pc, t, n in early:
         conds = [c for c in pc if c[0] != "loop"]
         ok = len(conds) == 1 and conds[0][1] and conds[0][0][0] == "op" and conds[0][0][1] == "cmp:Eq" \
-            and num_value(conds[0][0][2][1]) == 0 and "result" in show(conds[0][0][2][0])
+            and 0 in [num_value(x) for x in conds[0][0][2]] and any("result" in show(x) for x in conds[0][0][2])
         if not ok:
             run.violated("C01.R4", f, n, "early return under %s (only `total == 0` may skip the walk)" % [show(c)[:100] for c, p in conds],
                          kind="early-return")
